@@ -21,6 +21,7 @@ import (
 	"strings"
 	"sync"
 	"sync/atomic"
+	"time"
 	"unicode/utf8"
 
 	"github.com/thought-machine/please/rules"
@@ -774,6 +775,135 @@ func genSubincludes(maxN int, emit emitFn) {
 	}
 }
 
+// ---- real subincludes ------------------------------------------------------------------------------------------------
+// The formatter merges consecutive subinclude statements into ONE call with several arguments. That only preserves
+// meaning if subinclude(a, b, c) does what subinclude(a); subinclude(b); subinclude(c) does - a fact about the builtin,
+// which the recorder above replaces. Here the REAL builtin loads real (pre-built) targets: //x:a and //x:b define a common
+// name, //x:t has two named outputs. Every sequence of <=3 statements is evaluated before and after formatting.
+
+func realSubincludeTier(r *lib.Run, dir string) int {
+	root := filepath.Join(dir, "realsub")
+	files := map[string]string{
+		"plz-out/gen/x/a.build_defs":   "V = \"a\"\nA = 1\n",
+		"plz-out/gen/x/b.build_defs":   "V = \"b\"\nB = 1\n",
+		"plz-out/gen/x/one.build_defs": "V = \"one\"\nONE = 1\n",
+		"plz-out/gen/x/two.build_defs": "V = \"two\"\nTWO = 1\n",
+	}
+	for p, c := range files {
+		os.MkdirAll(filepath.Join(root, filepath.Dir(p)), 0o755)
+		os.WriteFile(filepath.Join(root, p), []byte(c), 0o644)
+	}
+	old, _ := os.Getwd()
+	oldRoot := core.RepoRoot
+	os.Chdir(root)
+	core.RepoRoot = root
+	defer func() { os.Chdir(old); core.RepoRoot = oldRoot }()
+	dbg := func(m string) {
+		if os.Getenv("C38_DEBUG") != "" {
+			f, _ := os.OpenFile("/tmp/c38.dbg", os.O_APPEND|os.O_CREATE|os.O_WRONLY, 0o644)
+			f.WriteString(m + "\n")
+			f.Close()
+		}
+	}
+	dbg("start")
+	names, _ := rules.AllAssets()
+	sort.Strings(names)
+	dbg("assets")
+	eval := func(code string) (map[string]any, error) {
+		state := core.NewDefaultBuildState()
+		pkg := core.NewPackage("x")
+		mk := func(name string, outs ...string) *core.BuildTarget {
+			t := core.NewBuildTarget(core.NewBuildLabel("x", name))
+			for _, o := range outs {
+				t.AddOutput(o)
+			}
+			t.Visibility = core.WholeGraph
+			t.SetState(core.Built)
+			pkg.AddTarget(t)
+			state.Graph.AddTarget(t)
+			return t
+		}
+		mk("a", "a.build_defs")
+		mk("b", "b.build_defs")
+		t := mk("t")
+		t.AddNamedOutput("one", "one.build_defs")
+		t.AddNamedOutput("two", "two.build_defs")
+		state.Graph.AddPackage(pkg)
+		p := asp.NewParser(state)
+		for _, fn := range names {
+			src, _ := rules.ReadAsset(fn)
+			if err := p.LoadBuiltins(fn, src); err != nil {
+				lib.Fatal("loading builtin %s: %s", fn, err)
+			}
+		}
+		g, err := asp.VerifEvalBuildC38(p, core.NewPackage("test/pkg"), code)
+		if err != nil {
+			return nil, err
+		}
+		out := map[string]any{}
+		for k, v := range g {
+			if m, isMap := v.(map[string]any); isMap {
+				if _, isFunc := m["<func>"]; isFunc {
+					continue
+				}
+			}
+			out[k] = v
+		}
+		return out, nil
+	}
+	// (a subinclude that waits for something nobody will build would block for ever: that is a harness error, not a verdict)
+	evalT := func(code string) (map[string]any, error) {
+		type res struct {
+			g   map[string]any
+			err error
+		}
+		ch := make(chan res, 1)
+		go func() { g, err := eval(code); ch <- res{g, err} }()
+		select {
+		case x := <-ch:
+			return x.g, x.err
+		case <-time.After(60 * time.Second):
+			lib.Fatal("real-subinclude tier: evaluation of %q did not return within 60 s", code)
+			return nil, nil
+		}
+	}
+	stmts := []string{`subinclude("//x:a")`, `subinclude("//x:b")`, `subinclude("//x:t|one")`, `subinclude("//x:t|two")`, `subinclude("//x:t")`, `v = 1`}
+	e := &evaluator{cfg: core.DefaultConfiguration(), file: filepath.Join(root, "BUILD")}
+	n := 0
+	for length := 1; length <= 3; length++ {
+		for idx := 0; idx < ipow(len(stmts), length); idx++ {
+			x := idx
+			var lines []string
+			for i := 0; i < length; i++ {
+				lines = append([]string{stmts[x%len(stmts)]}, lines...)
+				x /= len(stmts)
+			}
+			code := strings.Join(lines, "\n") + "\n"
+			dbg("eval " + code)
+			before, err := evalT(code)
+			if err != nil {
+				continue
+			}
+			n++
+			formatted, err := e.fmtOnce(code)
+			if err != nil {
+				continue
+			}
+			after, err := evalT(formatted)
+			if err != nil {
+				r.Violate("subinclude-real:merged-call-differs-from-separate-calls:formatted-rejected", prog{Fam: "subinclude-real", Code: code},
+					fmt.Sprintf("accepted before formatting; the formatted file %q is rejected: %s", formatted, firstLine(err.Error())))
+				continue
+			}
+			if !reflect.DeepEqual(before, after) {
+				r.Violate("subinclude-real:merged-call-differs-from-separate-calls:value-changed", prog{Fam: "subinclude-real", Code: code},
+					fmt.Sprintf("globals %s before formatting, %s after (formatted: %q)", short(before), short(after), formatted))
+			}
+		}
+	}
+	return n
+}
+
 func genCorpus(emit emitFn) {
 	root := os.Getenv("VERIF_REPO")
 	if root == "" {
@@ -829,9 +959,18 @@ func main() {
 	}
 	defer os.RemoveAll(dir)
 
+	realSubPrograms := 0
+	if r.Replay == "" {
+		realSubPrograms = realSubincludeTier(r, dir)
+	}
 	if r.Replay != "" {
 		var p prog
 		lib.LoadReplay(r.Replay, &p)
+		if p.Fam == "subinclude-real" {
+			realSubincludeTier(r, dir) // (small: the whole tier is re-run)
+			os.RemoveAll(dir)
+			r.Finish(lib.Coverage{Evaluations: 1, DistinctNontrivial: 1, Rule: "replay", Samples: []any{p}, Exhaustive: true})
+		}
 		e := newEvaluator(dir, 0)
 		res := e.check(p)
 		if res.Status == "violation" {
@@ -985,7 +1124,7 @@ func main() {
 		Rule:               "cases are distinct generated files; non-trivial = accepted by asp AND actually changed by the formatter (or violating)",
 		Samples:            samples.List(),
 		Exhaustive:         !capped.Load(),
-		Extra:              map[string]any{"families": stats, "formatter_errors": fmtErrFeat},
+		Extra:              map[string]any{"families": stats, "formatter_errors": fmtErrFeat, "real_subinclude_programs_compared": realSubPrograms},
 	})
 }
 
